@@ -60,7 +60,7 @@ CHECKS = {
              "reference (first/last/step). Non-key arguments are named so that they would be filtered if mistaken for keys.",
         note="trusts the transcription of Redis' key positions in harness/filter/c13_test.go; commands added to the tool's table that the reference does not know are reported as notes, not judged",
         rule="case = (command, argument shape, pass mask, filter config); all distinct; states = distinct cases, transitions = calls; non-trivial = all (each is compared with the reference rewrite)",
-        parts=[dict(pkg="./redis-shake/filter", harness=["filter"], test="^TestVerif_C13$", shards=1, budget=dict(quick=60, thorough=60))],
+        parts=[dict(pkg="./redis-shake/filter", harness=["filter"], test="^TestVerif_C13$", race=True, race_test="^TestVerif_C13Race$", race_shards=1, shards=1, budget=dict(quick=60, thorough=60))],
     ),
     "C01": dict(
         level="model_checking",
@@ -133,7 +133,8 @@ CHECKS = {
              "chosen database untouched and our stale fields removed elsewhere.",
         note="trusts mredis (HGETALL/HDEL/EXISTS/INFO keyspace) and redigo; the reference function is a direct transcription of the statement",
         rule="state = canonical target keyspace (per database: checkpoint fields, data flag); transition = one write applied to the model state; every distinct state is evaluated once on the real code; non-trivial = the state holds at least one checkpoint field or foreign value (outcome other than 'none')",
-        parts=[dict(pkg="./redis-shake/checkpoint", harness=["checkpoint"], test="^TestVerif_C14$", shards=16, budget=dict(quick=60, thorough=900))],
+        parts=[dict(pkg="./redis-shake/checkpoint", harness=["checkpoint"], test="^TestVerif_C14$", shards=16, budget=dict(quick=60, thorough=900)),
+               dict(pkg="./redis-shake/dbSync", harness=["dbsync"], test="^TestVerif_C14S$", shards=16, gomaxprocs=2, budget=dict(quick=60, thorough=600))],
     ),
     "C20": dict(
         level="model_checking",
